@@ -142,7 +142,9 @@ func (fv *familyVersion) GetLiveReferenceFiles(store string) map[FamilyID][]tabl
 // cannot remove current version from active versions.
 func (fv *familyVersion) removeVersion(v Version) {
 	fv.mutex.Lock()
-	if v != fv.current {
+	// re-check the ref count under the lock: between the caller's ref.Dec() == 0 and this call
+	// a reader may have retained the version again (GetSnapshot only needs the read lock).
+	if v != fv.current && v.NumOfRef() == 0 {
 		delete(fv.activeVersions, v.ID())
 	}
 	fv.mutex.Unlock()
